@@ -455,9 +455,13 @@ pub fn check(pid: &str, seed: u64) -> Value {
             format!("1,CONSUMO,ACS,TERMOSOLAR,{}\n2,CONSUMO,CAL,ELECTRICIDAD,{}\n2,CONSUMO,CAL,EAMBIENTE,{}\n2,PRODUCCION,EAMBIENTE,{}\n3,CONSUMO,ILU,ELECTRICIDAD,{}",
                 months(&sol, m), months(&hp_el, m), months(&hp_el.map(|v| v * 2.0), m), months(&hp_el.map(|v| v * 1.94), m), months(&[30.0; 12], m))
         };
+        // PV a little above the EPB electricity use from April to September (0.5-0.7 kWh a month, below 1 Wh an hour), a small non-EPB use
+        let pv_use = [30.0f32, 30.0, 30.0, 30.0, 30.0, 30.0, 30.0, 30.0, 30.0, 30.0, 30.0, 30.0];
+        let pv = [10.0f32, 14.0, 22.0, 30.5, 30.6, 30.7, 30.7, 30.6, 30.5, 20.0, 12.0, 9.0];
+        let small_surplus = |m: usize| -> String { format!("1,CONSUMO,ILU,ELECTRICIDAD,{}\n2,PRODUCCION,EL_INSITU,{}\n3,CONSUMO,NEPB,ELECTRICIDAD,{}\n4,CONSUMO,CAL,GASNATURAL,{}", months(&pv_use, m), months(&pv, m), months(&[0.3; 12], m), months(&[50.0; 12], m)) };
         for lm in [false, true] {
             leaf::reset_noise();
-            for (name, base, var) in [("12 months, each split in 730 (8760 hourly steps), small solar thermal use", monthly(1), monthly(730)), ("365 daily steps, each split in 24 (8760 hourly steps)", build(365, 1.0, 0, 1), build(8760, 1.0 / 24.0, 0, 24)), ("30 steps rotated by 7", build(30, 1.0, 0, 1), build(30, 1.0, 7, 1)), ("13 steps, each split in 4", build(13, 1.0, 0, 1), build(52, 0.25, 0, 4)), ("13 steps, each split in 3", build(13, 1.0, 0, 1), build(39, 1.0 / 3.0, 0, 3))] {
+            for (name, base, var) in [("12 months, each split in 730 (8760 hourly steps), PV surplus of less than 1 Wh an hour", small_surplus(1), small_surplus(730)), ("12 months, each split in 730 (8760 hourly steps), small solar thermal use", monthly(1), monthly(730)), ("365 daily steps, each split in 24 (8760 hourly steps)", build(365, 1.0, 0, 1), build(8760, 1.0 / 24.0, 0, 24)), ("30 steps rotated by 7", build(30, 1.0, 0, 1), build(30, 1.0, 7, 1)), ("13 steps, each split in 4", build(13, 1.0, 0, 1), build(52, 0.25, 0, 4)), ("13 steps, each split in 3", build(13, 1.0, 0, 1), build(39, 1.0 / 3.0, 0, 3))] {
                 evals += 2;
                 leaf::reset_noise();
                 if let (Ok(a), Ok(b)) = (run(&tcase(&base, 0.5, 1.0, lm)), run(&tcase(&var, 0.5, 1.0, lm))) {
